@@ -95,3 +95,13 @@ func TestPBKDF2Vectors(t *testing.T) {
 		}
 	}
 }
+
+func TestHKDFBlocksIsStreamPrefix(t *testing.T) {
+	prk, info := []byte("some pseudorandom key"), []byte("info")
+	s := HKDFStream(sha256.New, prk, info)
+	for _, n := range []int{1, 2, 3, 254, 255} {
+		if b := HKDFBlocks(sha256.New, prk, info, n); !bytes.Equal(b, s[:32*n]) {
+			t.Fatalf("HKDFBlocks(%d) is not a prefix of HKDFStream", n)
+		}
+	}
+}
